@@ -54,16 +54,104 @@ def rename_types(facts):
         return []
 
     def shape(a):
-        return sorted((v["name"], [fl["name"] for fl in v["fields"]]) for v in a["variants"])
+        # a struct's single "variant" carries the struct's own name: a renamed struct is the same shape
+        return sorted(("" if a["kind"] == "Struct" else v["name"], [fl["name"] for fl in v["fields"]]) for v in a["variants"])
 
-    def known_shape(k):
-        return sorted((vn, [f[0] for f in fs]) for vn, fs in k.items())     # (the table is stored with sorted keys)
+    def known_shape(k, path=""):
+        struct = len(k) == 1 and next(iter(k)) == path.rsplit("::", 1)[-1]
+        return sorted(("" if struct else vn, [f[0] for f in fs]) for vn, fs in k.items())     # (the table is stored with sorted keys)
+    def close(a, k, path):
+        """Same shape, or an enum (of four or more variants) with exactly one variant renamed and nothing else changed."""
+        sa, sk = shape(a), known_shape(k, path)
+        if sa == sk:
+            return True
+        if a["kind"] != "Enum" or len(sa) != len(sk) or len(sk) < 4:
+            return False
+        gone = [x for x in sk if x not in sa]
+        came = [x for x in sa if x not in sk]
+        return len(gone) == 1 and len(came) == 1 and gone[0][1] == came[0][1]
     pairs = []
     used = set()
     for m in missing:
-        same_name = [n for n in new if n.rsplit("::", 1)[-1] == m.rsplit("::", 1)[-1] and shape(now[n]) == known_shape(known[m])]
-        cands = same_name or [n for n in new if shape(now[n]) == known_shape(known[m]) and len(known[m]) + sum(len(f) for f in known[m].values()) >= 3]
+        same_name = [n for n in new if n.rsplit("::", 1)[-1] == m.rsplit("::", 1)[-1] and shape(now[n]) == known_shape(known[m], m)]
+        cands = same_name or [n for n in new if close(now[n], known[m], m) and len(known[m]) + sum(len(f) for f in known[m].values()) >= 3]
         cands = [n for n in cands if n not in used]
+        if len(cands) == 1:
+            pairs.append((cands[0], m))
+            used.add(cands[0])
+    if not pairs:
+        return []
+    text = json.dumps(facts)
+    for n, m in sorted(pairs, key=lambda p: -len(p[0])):
+        text = text.replace(n, m)
+    fresh = json.loads(text)
+    facts.clear()
+    facts.update(fresh)
+    return pairs
+
+
+def rename_variants(facts):
+    """An enum of the reference tree with exactly one variant renamed (same fields, every other variant unchanged) gets the
+    old variant name back wherever the variant is built, matched or listed.  Returns [(adt, new name, old name)]."""
+    try:
+        with open(KNOWN_ADTS) as f:
+            known = json.load(f)
+    except OSError:
+        return []
+    ren = {}
+    for a in facts["adts"]:
+        k = known.get(a["path"])
+        if not k or a["kind"] != "Enum" or len(a["variants"]) != len(k) or len(k) < 4:
+            continue
+        now_names = [v["name"] for v in a["variants"]]
+        gone = [n for n in k if n not in now_names]
+        came = [v for v in a["variants"] if v["name"] not in k]
+        if len(gone) == 1 and len(came) == 1 and [fl["name"] for fl in came[0]["fields"]] == [f[0] for f in k[gone[0]]]:
+            ren[(a["path"], came[0]["name"])] = gone[0]
+            came[0]["name"] = gone[0]
+    if not ren:
+        return []
+
+    def walk_json(x):
+        if isinstance(x, dict):
+            if "adt" in x and "variant" in x and (x["adt"], x["variant"]) in ren:
+                x["variant"] = ren[(x["adt"], x["variant"])]
+            if "of" in x and "ofv" in x and (x["of"], x["ofv"]) in ren:
+                x["ofv"] = ren[(x["of"], x["ofv"])]
+            for v in x.values():
+                walk_json(v)
+        elif isinstance(x, list):
+            for i, v in enumerate(x):
+                # a downcast `{"d": V}` is followed by the field it reaches, which names the type
+                if isinstance(v, dict) and "d" in v and i + 1 < len(x) and isinstance(x[i + 1], dict) and (x[i + 1].get("of"), v["d"]) in ren:
+                    v["d"] = ren[(x[i + 1]["of"], v["d"])]
+                walk_json(v)
+    walk_json(facts["bodies"])
+    return [(a, n, o) for (a, n), o in sorted(ren.items())]
+
+
+KNOWN_ITEMS = os.path.join(HERE, "known_items.json")
+
+
+def rename_items(facts):
+    """A `static` / `const` of the reference tree that is gone while exactly one new item of the same kind and name has
+    appeared elsewhere (its module was moved or renamed) is that item: the new path is replaced by the reference path
+    everywhere in the facts.  Returns [(new path, reference path)]."""
+    try:
+        with open(KNOWN_ITEMS) as f:
+            known = json.load(f)
+    except OSError:
+        return []
+    now = {("static", x["path"]) for x in facts["statics"]} | {("const", x["path"]) for x in facts["consts"]}
+    ref = {(x["kind"], x["path"]) for x in known}
+    missing = sorted(ref - now)
+    new = sorted(now - ref)
+    pairs = []
+    used = set()
+    for kind, m in missing:
+        if m.startswith("<"):
+            continue     # associated constants follow their type
+        cands = [n for k, n in new if k == kind and n.rsplit("::", 1)[-1] == m.rsplit("::", 1)[-1] and n not in used and not n.startswith("<")]
         if len(cands) == 1:
             pairs.append((cands[0], m))
             used.add(cands[0])
@@ -941,6 +1029,8 @@ def apply(facts, known=None):
     # renames are resolved in rounds: a function told apart from its twin only by what it calls can be recognised once
     # the renamed functions it calls have their names back
     facts["renamed_types"] = [{"now": n, "anchor": m} for n, m in rename_types(facts)]
+    facts["renamed_variants"] = [{"adt": a, "now": n, "anchor": o} for a, n, o in rename_variants(facts)]
+    facts["renamed_items"] = [{"now": n, "anchor": m} for n, m in rename_items(facts)]
     facts["renamed"] = []
     for _round in range(4):
         pairs = rename_anchors(facts, known)
